@@ -96,11 +96,11 @@ MAX_T = 9
 # (b) get_state / clone_from_state twins of the real searchers
 
 
-def _mk_gp_mf(cs, seed, p2e):
+def _mk_gp_mf(cs, seed, p2e, allow_duplicates=False):
     sch = HyperbandScheduler(dict(cs), searcher="bayesopt", metric=METRIC, mode="min", resource_attr=RES, max_t=MAX_T,
                              grace_period=1, reduction_factor=3, type="stopping", random_seed=seed,
                              points_to_evaluate=p2e,
-                             search_options={"num_init_random": 10 ** 6, "debug_log": False})
+                             search_options={"num_init_random": 10 ** 6, "debug_log": False, "allow_duplicates": bool(allow_duplicates)})
     sch._initialize_searcher()
     sch.searcher._twin_scheduler = sch   # harness-side back reference (for configure_scheduler of a clone)
     return sch.searcher
@@ -125,8 +125,16 @@ def make_twin_searcher(kind, cs, ctor, p2e, seed_shift=0):
                               num_init_random=10 ** 6, random_seed=seed, debug_log=False,
                               allow_duplicates=ctor.get("allow_duplicates", False))
     if kind == "gp-mf":
-        return _mk_gp_mf(cs, seed, None if p2e is None else [dict(p) for p in p2e])
+        return _mk_gp_mf(cs, seed, None if p2e is None else [dict(p) for p in p2e], ctor.get("allow_duplicates", False))
     raise AssertionError(kind)
+
+
+def _gp_data_state(s):
+    st = s.state_transformer.state
+    obs = sorted((str(e.trial_id), sorted((str(k), repr(v if not isinstance(v, dict) else sorted((str(a), float(b)) for a, b in v.items())))
+                                          for k, v in e.metrics.items())) for e in st.trials_evaluations)
+    return {"observed": obs, "pending": sorted((str(p.trial_id), p.resource) for p in st.pending_evaluations),
+            "failed": sorted(str(x) for x in st.failed_trials)}
 
 
 def _norm_cfg(c):
@@ -180,6 +188,8 @@ def run_clone_twin(spec):
     script, outputs, states = [], [], []
     next_tid = 0
     none_seen = 0
+    levels = {}
+    data_states = []       # GP searchers: the data the original holds at each snapshot (observations, pending, failed trials)
     for _ in range(spec["n_ops"]):
         r = rng.random()
         live = [t for t in configs if t not in done]
@@ -192,14 +202,23 @@ def run_clone_twin(spec):
             done.add(t)
         elif live and r < 0.4 and any(t in pend for t in live):
             t = rng.choice([t for t in live if t in pend])
-            op = ("update", t, rng.randrange(0, 64) / 64.0, 1)
-            done.add(t)
+            if kind == "gp-mf":
+                # a multi-fidelity trial reports at consecutive levels and may fail afterwards: then it is both observed
+                # and failed
+                levels[t] = levels.get(t, 0) + 1
+                op = ("update", t, rng.randrange(0, 64) / 64.0, levels[t])
+                if levels[t] >= 3 or rng.random() < 0.5:
+                    done.add(t)
+            else:
+                op = ("update", t, rng.randrange(0, 64) / 64.0, 1)
+                done.add(t)
         else:
             op = ("get", next_tid)
         # snapshot BEFORE the event: the clone has to reproduce this and the following events
         try:
             st = orig.get_state()
             states.append(st if spec.get("raw_state") else pickle.loads(pickle.dumps(st)))
+            data_states.append(_gp_data_state(orig) if kind.startswith("gp") else None)
         except Exception as e:
             add(f"c16:{kind}-get-state-raises", f"get_state raised {type(e).__name__}: {e}")
             break
@@ -219,6 +238,7 @@ def run_clone_twin(spec):
                     op2 = ("pending", next_tid)
                     st = orig.get_state()
                     states.append(st if spec.get("raw_state") else pickle.loads(pickle.dumps(st)))
+                    data_states.append(_gp_data_state(orig) if kind.startswith("gp") else None)
                     searcher_apply(orig, kind, op2, configs)
                     script.append(op2)
                     outputs.append(None)
@@ -240,6 +260,15 @@ def run_clone_twin(spec):
                   ("c16:random-clone-raises" if kind == "random" else f"c16:{kind}-clone-raises")
             add(sig, f"clone_from_state at prefix {i} raised {type(e).__name__}: {e}")
             break
+        if kind.startswith("gp") and data_states[i] is not None and not spec.get("raw_state"):
+            # (a snapshot that was not serialised shares its lists with the live searcher: judged by behaviour only)
+            # what the searcher knows (observations, pending evaluations, black-listed trials) is what its future answers
+            # are a function of: the restored searcher holds the same data
+            dc = _gp_data_state(clone)
+            if dc != data_states[i] and not any(f["signature"] == f"c16:{kind}-clone-data-differs" for f in findings):
+                k_ = next(q for q in ("observed", "pending", "failed") if dc[q] != data_states[i][q])
+                add(f"c16:{kind}-clone-data-differs", f"{kind}: the searcher restored from the snapshot at prefix {i} holds other data than the "
+                    f"original had there: {k_} {dc[k_]} instead of {data_states[i][k_]}", {"prefix": i})
         diverged = False
         gets = n_gets_before
         noninit0 = noninit
@@ -550,12 +579,22 @@ def gen_cases(rng, tier):
                "ctor": {"allow_duplicates": False, "random_seed": rng.randrange(1000), "shuffle": True, "num_samples": {},
                         "debug_log": False, "restrict": [S._plain(s0.get_config()) for _ in range(rng.randint(1, 4))]},
                "n_ops": 40, "seed": rng.randrange(10 ** 9), "lookahead": 12, "raw_state": False}
+    # (b2) multi-fidelity GP searcher with allow_duplicates=True on a tiny finite space: a trial that reported and then failed
+    # is excluded only through the list of failed trials, which has to survive the snapshot
+    for _ in range(10 if quick else 150):
+        space = S.gen_space(rng, finite=True, small=True, n_hp=1, consts=False)
+        yield {"scenario": "clone-twin", "kind": "gp-mf", "space": space, "p2e": None,
+               "ctor": {"allow_duplicates": True, "random_seed": rng.randrange(1000), "shuffle": True, "num_samples": {},
+                        "debug_log": False},
+               "n_ops": 40, "seed": rng.randrange(10 ** 9), "lookahead": 14, "raw_state": False}
     # (b3) model-based GP searcher restored in the middle of its fit / skip rhythm
     for _ in range(6 if quick else 40):
         n = 8 if quick else 11
         yield {"scenario": "gp-fit-twin", "seed": rng.randrange(10 ** 9), "num_init_random": rng.choice([2, 3]),
                "skip_init": rng.choice([3, 4]), "skip_period": rng.choice([1, 2, 3, 3]), "n_steps": n, "lookahead": 3,
-               "ks": sorted(rng.sample(range(0, n + 1), 4 if quick else 6))}
+               "ks": sorted(rng.sample(range(0, n + 1), 4 if quick else 6)),
+               # an odd number of initial candidates: the generator holds a cached normal variate at the snapshot
+               "num_init_candidates": rng.choice([None, 5, 7, 33])}
     # (c) dill twins of whole schedulers
     for i in range(44 if quick else 700):
         name = DILL_SCHEDS[i % len(DILL_SCHEDS)]
@@ -628,6 +667,8 @@ def run_gp_fit_twin(spec):
     kw = dict(metric=METRIC, points_to_evaluate=[], random_seed=spec["seed"] % 1000, num_init_random=spec["num_init_random"],
               opt_skip_init_length=spec["skip_init"], opt_skip_period=spec["skip_period"], opt_nstarts=1, opt_maxiter=spec.get("maxiter", 10),
               debug_log=False)
+    if spec.get("num_init_candidates"):
+        kw["num_init_candidates"] = spec["num_init_candidates"]
     a, b = rng.uniform(-0.5, 0.5), rng.uniform(0.5, 1.5)
 
     def step(sr, tid):
